@@ -12,6 +12,10 @@ collide pairwise in every way the workspace can be confused by.
                                          a different namespace and a different name (a workspace that normalises keys in one place
                                          only drifts here)
 
+    G   (a, ns2)  decision Who = "G"     its namespace is spelled like the NAME of A and C, its name like the NAMESPACE of C: namespaces
+                                         and names are two key spaces, so G collides with nothing (a workspace that looks a key up in
+                                         both lookups refuses it next to A or C)
+
 Every model has one decision `Who` without requirements whose value names the model text, so that evaluating
 (model name, "Who") tells which definitions are deployed under that name.
 """
@@ -51,19 +55,20 @@ MODELS = {
     "D": ("ns3", "c", True, "D"),
     "E": ("ns4", "d", False, None),
     "F": ("ns3/", "a-b", True, "F"),
+    "G": ("a", "ns2", True, "G"),
 }
-TAGS = ["A", "B", "C", "A2", "D", "E", "F"]          # simplest first
+TAGS = ["A", "B", "C", "A2", "D", "E", "F", "G"]          # simplest first
 XML = {tag: (bkm_model_xml if tag == "D" else model_xml)(ns, name, '"%s"' % val if builds else "1 +") for tag, (ns, name, builds, val) in MODELS.items()}
 
 NAMESPACES = ["ns1", "ns2", "ns3", "ns4", "ns3/"]
 NAMES = ["a", "a - b", "c", "d", "a-b"]
 # remove() arguments: the five model keys first, then the cross pairs, then a pair nobody has
-MODEL_KEYS = [("ns1", "a"), ("ns1", "a - b"), ("ns2", "a"), ("ns3", "c"), ("ns4", "d"), ("ns3/", "a-b")]
+MODEL_KEYS = [("ns1", "a"), ("ns1", "a - b"), ("ns2", "a"), ("ns3", "c"), ("ns4", "d"), ("ns3/", "a-b"), ("a", "ns2")]
 CROSS_KEYS = [(ns, nm) for ns in NAMESPACES for nm in NAMES if (ns, nm) not in MODEL_KEYS]
 # keys that differ from a stored model's only in letter case: other keys (namespaces and names are compared as given)
 CASE_KEYS = [("NS1", "a"), ("ns1", "A"), ("NS3/", "a-b")]
 REMOVE_KEYS = MODEL_KEYS + CROSS_KEYS + CASE_KEYS + [("nsX", "x")]
-EVAL_NAMES = NAMES + ["x", "a -b"]      # "a -b": a third spelling of the same FEEL name, which no model has
+EVAL_NAMES = NAMES + ["ns2", "x", "a -b"]      # "a -b": a third spelling of the same FEEL name, which no model has
 
 
 def key_of(tag):
